@@ -126,6 +126,21 @@ fn c19_disjoint_set_vs_naive_partition() {
                     4 => { ds.set_data(a, Bag(vec![*d])); nm.set(*a, Bag(vec![*d])); }
                     _ => { let _ = ds.find(a); nm.ensure(*a); }
                 }
+                // enumeration (twice: enumerating must not change anything): one entry per class, with the class data
+                for pass in 0..2 {
+                    let sets = ds.sets();
+                    let mut classes: Vec<usize> = nm.class.values().copied().collect();
+                    classes.sort_unstable();
+                    classes.dedup();
+                    if sets.len() != classes.len() { return Some((i, format!("sets() pass {pass} lists {} sets", sets.len()), format!("{}", classes.len()))); }
+                    for (root, data) in &sets {
+                        if data != &nm.get(*root) { return Some((i, format!("sets() pass {pass} gives {data:?} for the set of {root}"), format!("{:?}", nm.get(*root)))); }
+                    }
+                    let mut vals = ds.values();
+                    vals.sort_unstable();
+                    let want: Vec<usize> = nm.class.keys().copied().collect();
+                    if vals != want { return Some((i, format!("values()={vals:?}"), format!("{want:?}"))); }
+                }
                 // partition and data agree on every element that the model knows
                 let known: Vec<usize> = nm.class.keys().copied().collect();
                 for &x in &known {
